@@ -52,6 +52,13 @@ class ZzqSecretBadReprError(Exception):
     __str__ = __repr__
 
 
+def _futures_cancelled(m: str) -> Exception:
+    # concurrent.futures.CancelledError is an ordinary Exception (unlike asyncio.CancelledError): a method that waited
+    # for a pool future which somebody cancelled fails with it
+    import concurrent.futures
+    return concurrent.futures.CancelledError(m)
+
+
 def _library_validation_error(m: str) -> Exception:
     # application code re-using the library's own ValidationError inside a method body
     from pjrpc.server.validators import ValidationError
@@ -70,9 +77,24 @@ EXC_KINDS: Dict[str, Callable[[str], Exception]] = {
     'validation_like': lambda m: ValueError({'loc': m}),
     'validation': _library_validation_error,
     'badrepr': lambda m: ZzqSecretBadReprError(m),
+    # exception classes that infrastructure code likes to treat specially (timeouts, cancellations of *other* work,
+    # connection trouble, arithmetic, exception groups): to the dispatcher they are failures of the method like any other
+    'timeout': lambda m: TimeoutError(m),
+    'aio_timeout': lambda m: asyncio.TimeoutError(m),
+    'fut_cancelled': lambda m: _futures_cancelled(m),
+    'connreset': lambda m: ConnectionResetError(m),
+    'zerodiv': lambda m: ZeroDivisionError(m),
+    'notimpl': lambda m: NotImplementedError(m),
+    'attr': lambda m: AttributeError(m),
+    'recursion': lambda m: RecursionError(m),
+    'group': lambda m: ExceptionGroup(m, [ValueError(m), KeyError(m)]),
+    'unicode': lambda m: UnicodeDecodeError('utf-8', b'\xff', 0, 1, m),
+    'stopaiter': lambda m: StopAsyncIteration(m),
 }
 EXC_CLASS_NAMES = ['ValueError', 'KeyError', 'TypeError', 'AssertionError', 'RuntimeError',
-                   'ZzqSecretCustomError', 'IndexError', 'OSError', 'ZzqSecretBadReprError']
+                   'ZzqSecretCustomError', 'IndexError', 'OSError', 'ZzqSecretBadReprError', 'TimeoutError',
+                   'CancelledError', 'ConnectionResetError', 'ZeroDivisionError', 'NotImplementedError', 'AttributeError',
+                   'RecursionError', 'ExceptionGroup', 'UnicodeDecodeError', 'StopAsyncIteration']
 
 DATA_MODES = ('absent', 'null', 'value')
 
